@@ -464,7 +464,7 @@ func callTemplate(fn string, args []c08Arg) (string, []string) {
 
 // ---------------------------------------------------------------- value pools
 var intPool = []string{"0", "1", "-1", "2", "-2", "-9223372036854775808", "9223372036854775807",
-	"2147483648", "-2147483648", "4294967296", "-4294967296", "3", "9", "10", "100", "1000000", "1000001", "+5", "007"}
+	"2147483648", "-2147483648", "4294967296", "-4294967296", "3", "9", "10", "100", "1000000", "1000001", "+5", "007", "-", "+"}
 var floatPool = []string{"0", "-0", "1e308", "NaN", "Inf", "-Inf", "1.5", "-2.25", "1e-320", "9223372036854775808", "1e19",
 	// non-zero magnitudes below 1 (truncate to the integer 0), values just around +-1 and +-2^63, non-integers
 	"0.5", "-0.25", "1e-300", "5e-324", "-5e-324", "0.9999999999999999", "-0.9999999999999999",
@@ -1142,7 +1142,7 @@ var goodCalls = map[string][][]string{
 	"!":              {{"1 + 2"}},
 }
 
-var badParams = []string{"", " ", "abc", "1.5", "9223372036854775808", "-5", "-9223372036854775808", "NaN", "0", "1e3"}
+var badParams = []string{"", " ", "abc", "1.5", "9223372036854775808", "-5", "-9223372036854775808", "NaN", "0", "1e3", "-", "+"}
 
 type oneBad struct {
 	fn   string
@@ -1670,6 +1670,10 @@ func fixedCases() []fixedCase {
 	raw("math", "{! [0] % [1]}{! [0] << [1]}{! [0] >> [1]}", []string{"7", "5e-324"}, nil)
 	raw("math", "{! [0] << [1]}{! [0] >> [1]}{! 1 << (-0.5)}{! 1 >> (-1.5)}{! 1 << 64}{! 1 << 1000}", []string{"1", "-1.5"}, nil)
 	raw("math", "{! [0] % [1]}{! [0] % (-1)}", []string{"-9223372036854775808", "-1"}, nil)
+	// a backslash before a non-ASCII character, an invalid byte, typographic quotes
+	for _, t := range []string{"C:\\Donn\u00e9es", "\\\u201c{0}\\\u201d", "{eq \"\\\u65e5\u672c\" {0}}", "a\\\xffb", "\\\u00e9", "{$ \\\u20ac {0}}", "x\\\u2192", "\\\U0001F600{0}"} {
+		raw("malformed", t, []string{"v"}, nil)
+	}
 	raw("malformed", "abc\\", nil, nil)
 	raw("malformed", "{", nil, nil)
 	raw("malformed", "}{\"", nil, nil)
